@@ -24,8 +24,14 @@ def uniquify(names):
     return out
 
 
-def rnd_args(rng, f):
-    """Physically sensible arguments for a pulse function."""
+def rnd_args(rng, f, dur=None):
+    """Physically sensible arguments for a pulse function (time-like ones scaled to the duration)."""
+    if dur is not None and f == "sine":
+        return [rng.choice([1, 2, rng.uniform(0, 4)]) / dur, rng.uniform(0.1, 5), rng.choice([0, rng.uniform(-2, 2)]),
+                rng.choice([0, rng.uniform(-3, 3)])]
+    if dur is not None and f in ("gaussian", "gaussian_smooth_cutoff"):
+        return [rng.uniform(0.1, 5), dur * rng.uniform(0.05, 0.3), rng.choice([0, dur * rng.uniform(-0.2, 0.2)]),
+                rng.choice([0, rng.uniform(-1, 1)])]
     if f == "ramp":
         return [rng.choice([0, 1, -1, 0.5, rng.uniform(-10, 10)]), rng.choice([0, 1, rng.uniform(-10, 10)])]
     if f == "sine":
